@@ -6,6 +6,7 @@ import random
 class Prop(PoolProp):
     pid = "C03"
     focus = "calls"
+    real_scenarios = ("factory_quota_two_calls", "factory_quota_bounded")
     p_factory = 0.6
     n_calls = [2, 2, 3, 4]
     rule = ("call histories of 2-4 calls on one pool (different lengths incl. empty, chunk sizes, ordered/unordered), factory "
